@@ -64,6 +64,11 @@ class Gen(object):
         if k < 0.36:
             return ('u', self.any_num(d - 1))
         if k < 0.62:
+            if not strict and r.random() < 0.12:
+                # an array operand (literal, host list or range) meets a possibly erroneous operand
+                arr = ('arr', r.choice(['{1,2}', '{3;4;5}', 'v_arr', 'A1:B2', '{1,2;3,4}']))
+                other = self.err() if r.random() < 0.7 else self.num(d - 1, True)
+                return ('b', r.choice('+-*/'), arr, other) if r.random() < 0.5 else ('b', r.choice('+-*/'), other, arr)
             return ('b', r.choice('+-*/'), self.any_num(d - 1), self.any_num(d - 1))
         if k < 0.72:
             arg = (lambda: self.num(d - 1, True)) if strict else (lambda: self.any_num(d - 1))
@@ -123,6 +128,8 @@ def render(t):
         return '"%s"' % t[1]
     if k == 'err':
         return t[3]
+    if k == 'arr':
+        return t[1]
     if k == 'u':
         return '-(' + render(t[1]) + ')'
     if k in ('cmp', 'b'):
@@ -140,7 +147,18 @@ class Unclaimed(Exception):
     pass
 
 
+class Arr(object):
+    """opaque model value: some array (only its being an array and not an error is claimed here)"""
+    def __repr__(self):
+        return 'ARRAY'
+
+
+ARR = Arr()
+
+
 def numv(v):
+    if v is ARR:
+        raise Unclaimed('array where a number is needed')
     if isinstance(v, bool):
         return Fr(int(v))
     if isinstance(v, Fr):
@@ -156,6 +174,8 @@ def model(t):
         return t[1]
     if k == 'err':
         return E(t[1])
+    if k == 'arr':
+        return ARR
     if k == 'u':
         v = model(t[1])
         return v if isinstance(v, E) else -numv(v)
@@ -165,6 +185,10 @@ def model(t):
             return a
         if isinstance(b, E):
             return b
+        if a is ARR and b is ARR:
+            raise Unclaimed('array with array (length rules are the subject of C06)')
+        if a is ARR or b is ARR:
+            return ARR          # element-wise result: an array, not an error (values are C06's subject)
         a, b = numv(a), numv(b)
         if t[1] == '/':
             return E('#DIV/0!') if b == 0 else a / b
@@ -196,6 +220,8 @@ def model(t):
     if k == 'trap':
         fn = t[1]
         v = model(t[2])
+        if v is ARR and fn in ('ERROR.TYPE',):
+            raise Unclaimed('ERROR.TYPE of an array')
         if fn == 'ISERROR':
             return isinstance(v, E)
         if fn == 'ISERR':
@@ -216,6 +242,8 @@ def model(t):
                 return v
         if t[1] == 'IDF':
             return vals[0]
+        if any(v is ARR for v in vals):
+            raise Unclaimed('aggregate over an array result')
         xs = [numv(v) for v in vals]
         if t[1] == 'SUM':
             return sum(xs)
@@ -266,6 +294,8 @@ def features(t, acc):
         for x in t[1]:
             features(x, acc)
     elif k == 'b':
+        if (t[2][0] == 'arr' or t[3][0] == 'arr') and (is_e(t[2]) or is_e(t[3])):
+            acc.add('error-meets-array-operand')
         if is_e(t[2]) and is_e(t[3]):
             acc.add('both-operands-error')
         features(t[2], acc)
@@ -330,6 +360,8 @@ class Check(BaseCheck):
             if cell.label.startswith('E') and cell.label[1:].isdigit() and 1 <= int(cell.label[1:]) <= 8:
                 setter(objs[CODES8[int(cell.label[1:]) - 1]])
         e.p.on('callCellValue', on_cell)
+        e.p.set_variable('v_arr', [10, 20])
+        e.p.on('callRangeValue', lambda a, b, s: s([[1, 2], [3, 4]]))
         getattr(self, 'c_' + spec['campaign'])(spec, rec)
 
     def agree(self, m, r):
@@ -338,6 +370,8 @@ class Check(BaseCheck):
         if r['error'] is not None:
             return False
         g = r['result']
+        if m is ARR:
+            return isinstance(g, list)
         if isinstance(m, bool):
             return g is m
         if isinstance(m, str):
@@ -432,6 +466,9 @@ class Check(BaseCheck):
               ('b', '+', div0, na), ('b', '+', na, div0), ('b', '/', ('err', '#REF!', 'host-var', 'ev_d'), ('trap', 'IFNA', ('b', '*', N(3), rr), N(77))),
               ('trap', 'IFERROR', ('call', 'IDF', [rs]), N(4)), ('call', 'SUM', [N(1), rr]), ('b', '+', rr, N(1)), ('trap', 'ISERR', na), ('trap', 'ISERR', div0),
               ('trap', 'IFERROR', N(1), div0), ('trap', 'IFERROR', div0, na), ('trap', 'ERROR.TYPE', N(1))]
+        arr = ('arr', '{1,2}')
+        ts += [('b', '+', arr, na), ('b', '-', na, arr), ('trap', 'ISERROR', ('b', '*', arr, div0)), ('trap', 'IFERROR', ('b', '/', ('arr', 'A1:B2'), rr), N(5)),
+               ('trap', 'ISNA', ('b', '+', ('arr', 'v_arr'), na)), ('b', '+', arr, N(1)), ('trap', 'ISERROR', ('b', '+', arr, N(1)))]
         for c in CODES8:
             i = CODES8.index(c)
             ts.append(('trap', 'ERROR.TYPE', ('err', c, 'returned', 'ERRV(%d)' % i)))
@@ -453,7 +490,7 @@ class Check(BaseCheck):
             why.append('not all 8 codes were used as sources')
         if len(cov.get('trapping_functions', ())) < 6:
             why.append('not all trapping functions were exercised')
-        need = {'error-under-unary-minus', 'error-under-comparison', 'error-under-&', 'raised-error-under-trapping-function', 'both-operands-error'}
+        need = {'error-under-unary-minus', 'error-under-comparison', 'error-under-&', 'raised-error-under-trapping-function', 'both-operands-error', 'error-meets-array-operand'}
         if not need <= set(cov.get('features', ())):
             why.append('feature classes missing: %s' % sorted(need - set(cov.get('features', ()))))
         return why
